@@ -12,6 +12,6 @@ for pid in "$@"; do
   VERIF_REPO=$scratch/repo VERIF_EVIDENCE_DIR=$scratch/evidence bin/check $pid > $scratch/$pid.out 2>&1
   rc=$?
   echo "== $id vs $pid: rc=$rc"
-  grep -E "^(VIOLATION|KNOWN-FINDING|UNDECIDED|ERROR|OK)" $scratch/$pid.out | cut -c1-400
+  grep -E "^(VIOLATION|KNOWN-FINDING|UNDECIDED|CHECKER-ERROR|ERROR|OK)" $scratch/$pid.out | cut -c1-400
 done
 rm -rf $scratch
